@@ -91,10 +91,18 @@ public:
     // No constructor should be added
     // Provide generic AbstractTensors copy constructor though
     //----------------------------------------------------------------------------------------------------------//
-    template<typename Derived, size_t DIMS>
+    template<typename Derived, size_t DIMS, enable_if_t_<!requires_evaluation_v<Derived>,bool> = false>
     FASTOR_INLINE void operator=(const AbstractTensor<Derived,DIMS>& src) {
         FASTOR_ASSERT(src.self().size()==size(), "TENSOR SIZE MISMATCH");
         assign(*this, src.self());
+    }
+    // An expression that has to be evaluated in stages may read this map after the first stage has
+    // overwritten it (m = B + trans(m)), so it is materialised first - this is what assigning to a Tensor does
+    template<typename Derived, size_t DIMS, enable_if_t_<requires_evaluation_v<Derived>,bool> = false>
+    FASTOR_INLINE void operator=(const AbstractTensor<Derived,DIMS>& src) {
+        FASTOR_ASSERT(src.self().size()==size(), "TENSOR SIZE MISMATCH");
+        const result_type tmp(src.self());
+        trivial_assign(*this, tmp);
     }
     // Assigning a map of the same type copies the elements like every other assignment to a map does;
     // the implicitly generated copy assignment would instead re-seat the map on the other buffer
